@@ -370,6 +370,9 @@ func (p *Proxy) handleConnectRequest(ctx *Context, req *http.Request, session *S
 				return err
 			}
 			if tlsconn.ConnectionState().NegotiatedProtocol == "h2" {
+				// The CONNECT exchange is over; its context must not stay retrievable for
+				// as long as the HTTP/2 session in the tunnel lasts.
+				unlink(req)
 				return p.mitm.H2Config().Proxy(p.closing, tlsconn, req.URL)
 			}
 
